@@ -1,6 +1,8 @@
 (* C02 - correctness of the model of emit.rs (Cond/Emit.v) with respect to the
    documented meaning (Cond/Sem.v), on the machine of Cond/Machine.v. *)
 From Coq Require Import List ZArith Bool Lia.
+From Coq Require Import Permutation.
+From YV Require Import Cond.RunsProofs.
 From YV Require Import Cond.Syntax Cond.Sem Cond.SemProofs Cond.Quirks Cond.QuirksProofs
   Cond.Machine Cond.MachineProofs Cond.Emit Cond.EmitBase.
 Import ListNotations.
@@ -403,8 +405,6 @@ Section Correct.
     destruct st1; cbn in *; exact Hr.
   Qed.
 
-  (* the early exit of `and`: [if] whose else branch pushes false and leaves the block *)
-  Definition and_exit : list instr := [IIf 0 [] [IConst (V32 0); IBr 1]].
 
   Lemma c_and_body : forall sp st ca cb va vb,
     computes sp h0 F0 [] ca va st -> s_stack st = [] ->
@@ -440,47 +440,69 @@ Section Correct.
   Lemma or_false_bool : forall v, types_as TBool v -> or_false v = VBool (truthy v).
   Proof. intros [z|[|]|s|] H; cbn in *; try discriminate; try contradiction; reflexivity. Qed.
 
-  (* emit_or *)
-  Lemma c_or : forall sp h F st ba bb va vb,
-    types_as TBool va -> types_as TBool vb ->
-    computes sp h0 F0 [] ba va (set_stack st []) ->
-    (forall st', keeps sp st st' -> computes sp h0 F0 [] bb vb (set_stack st' [])) ->
-    computes sp h F (s_stack st)
-      [IBlock 1 ([IBlock 1 ba] ++ [IIf 0 [IConst (V32 1); IBr 1] []] ++ [IBlock 1 bb])]
-      (VBool (truthy va || truthy vb)) st.
+  (* emit_or: the early exit pushes true and leaves the block of the `or` *)
+  Definition h1 : handler := mkH [IConst (V32 1)] 0.
+  Definition F1 (st : state) : state := set_stack st (V32 1 :: s_stack st).
+  Definition or_true (v : value) : value := match v with VUndef => VBool true | _ => v end.
+  (* what a chain of `or` operands has established: exited with true, or the
+     value of its last operand on the stack *)
+  Definition rawt (v : value) : bool := match v with VUndef => true | _ => truthy v end.
+
+  Lemma c_block_catch1 : forall sp h F st body v,
+    computes sp h1 F1 [] body v (set_stack st []) ->
+    computes sp h F (s_stack st) [IBlock 1 body] (or_true v) st.
   Proof.
-    intros sp h F st ba bb va vb Ta Tb Ha Hb. split; [intros _ | intros E; discriminate].
-    pose proof (c_block_catch sp h F (set_stack st []) ba va) as CA.
-    cbn [set_stack s_stack] in CA. specialize (CA Ha). rewrite (or_false_bool va Ta) in CA.
-    destruct CA as [DA _]. destruct (DA ltac:(discriminate)) as [st1 [K1 [S1 C1]]].
-    destruct (truthy va) eqn:TA.
-    - (* first operand true: leave the block with 1 *)
-      exists (set_stack st1 (V32 1 :: s_stack st)).
-      split; [eapply keeps_trans; [apply (keeps_stack sp st [])| eapply keeps_trans; [exact K1 | apply keeps_stack]]|].
+    intros sp h F st body v [D U]. split; [intros _ | intros E; destruct v; discriminate].
+    assert (Dv : v <> VUndef \/ v = VUndef) by (destruct v; [left|left|left|right]; congruence).
+    destruct Dv as [N | E].
+    { destruct (D N) as [st' [K [S C]]].
+      exists (set_stack st' (val_of v :: s_stack st)).
+      replace (or_true v) with v by (destruct v; try reflexivity; contradiction).
+      split; [eapply keeps_trans; [apply (keeps_stack sp st [])| eapply keeps_trans; [exact K | apply keeps_stack]]|].
       split; [reflexivity|].
       intros rest o Hr. cbn [app].
-      eapply BBlock.
-      + apply (C1 ([IIf 0 [IConst (V32 1); IBr 1] []] ++ [IBlock 1 bb])). cbn [app].
-        eapply step_if; [exact S1 | cbn [val_of b2z Z.eqb]; apply step_const; apply BBr |].
-        cbn [close]. apply seq_branch.
-      + cbn [close leave set_stack s_stack take_top Nat.leb length firstn app]. apply seq_normal.
-        destruct st1; cbn in *; exact Hr.
-    - (* first operand false or undefined: the second decides *)
-      pose proof (c_block_catch sp h F (set_stack st1 []) bb vb) as CB.
-      cbn [set_stack s_stack] in CB.
-      assert (K1' : keeps sp st st1) by (eapply keeps_trans; [apply (keeps_stack sp st []) | exact K1]).
-      specialize (CB (Hb st1 K1')). rewrite (or_false_bool vb Tb) in CB.
-      destruct CB as [DB _]. destruct (DB ltac:(discriminate)) as [st2 [K2 [S2 C2]]].
-      exists (set_stack st2 (V32 (b2z (truthy vb)) :: s_stack st)).
-      split; [eapply keeps_trans; [exact K1' | eapply keeps_trans; [apply (keeps_stack sp st1 []) | eapply keeps_trans; [exact K2 | apply keeps_stack]]]|].
-      split; [reflexivity|].
-      intros rest o Hr. cbn [app].
-      eapply BBlock.
-      + apply (C1 ([IIf 0 [IConst (V32 1); IBr 1] []] ++ [IBlock 1 bb])). cbn [app].
+      eapply BBlock; [ rewrite <- (app_nil_r body); apply C; apply BNil |].
+      unfold close, leave. rewrite S. cbn [take_top Nat.leb length firstn app]. apply seq_normal. exact Hr. }
+    subst v. cbn [or_true].
+    destruct (U eq_refl []) as [st1 [K B]]. rewrite app_nil_r in B.
+    exists (set_stack st1 (V32 1 :: s_stack st)).
+    split; [eapply keeps_trans; [apply (keeps_stack sp st [])| eapply keeps_trans; [exact K | apply keeps_stack]]|].
+    split; [reflexivity|].
+    intros rest o Hr. cbn [app].
+    eapply BBlock; [exact B|].
+    cbn [close leave h1 h_depth F1 set_stack s_stack take_top Nat.leb length firstn app]. apply seq_normal.
+    destruct st1; cbn in *; exact Hr.
+  Qed.
+
+  Lemma c_or_body : forall sp st ca cb va vb,
+    computes sp h1 F1 [] ca va st -> s_stack st = [] ->
+    types_as TBool va ->
+    (forall st', keeps sp st st' -> s_stack st' = [] -> computes sp h1 F1 [] cb vb st') ->
+    computes sp h1 F1 [] (ca ++ or_exit ++ cb)
+      (match va with VBool false => vb | _ => VUndef end) st.
+  Proof.
+    intros sp st ca cb va vb Ha Hs Ta Hb.
+    destruct va as [z|[|]|s|]; cbn in Ta; try discriminate; try contradiction.
+    - (* a is true: leave the block with true *)
+      destruct Ha as [Da _]. destruct (Da ltac:(discriminate)) as [st1 [K1 [S1 C1]]].
+      split; [intros E; contradiction | intros _ rest].
+      exists (set_stack st1 []). split; [eapply keeps_trans; [exact K1 | apply keeps_stack]|].
+      rewrite <- app_assoc. apply C1. unfold or_exit. cbn [app].
+      eapply step_if; [exact S1 | cbn [val_of b2z Z.eqb]; apply step_const; apply BBr |].
+      cbn [close h1 h_depth F1 set_stack s_stack]. apply seq_branch.
+    - (* a is false: continue with b *)
+      destruct Ha as [Da _]. destruct (Da ltac:(discriminate)) as [st1 [K1 [S1 C1]]].
+      assert (Hb' := Hb (set_stack st1 []) (keeps_trans _ _ _ _ K1 (keeps_stack _ _ _)) eq_refl).
+      rewrite app_assoc.
+      eapply computes_after; [ | | exact Hb'].
+      + eapply keeps_trans; [exact K1 | apply keeps_stack].
+      + intros rest o Hr. rewrite <- app_assoc. apply C1. unfold or_exit. cbn [app].
         eapply step_if; [exact S1 | cbn [val_of b2z Z.eqb]; apply BNil |].
-        cbn [close leave set_stack s_stack take_top Nat.leb length firstn app]. apply seq_normal.
-        rewrite <- (app_nil_r [IBlock 1 bb]). apply C2. apply BNil.
-      + unfold close, leave. rewrite S2. cbn [take_top Nat.leb length firstn app val_of]. apply seq_normal. exact Hr.
+        cbn. apply seq_normal. exact Hr.
+    - (* the chain has already left *)
+      destruct Ha as [_ Ua]. split; [intros E; contradiction | intros _ rest].
+      destruct (Ua eq_refl ((or_exit ++ cb) ++ rest)) as [st1 [K B]].
+      exists st1. split; [exact K|]. rewrite <- app_assoc. exact B.
   Qed.
 
   (* the cast of emit_bool_expr *)
@@ -771,6 +793,7 @@ Section Correct.
     | EBool _ | EInt _ | EFilesize | EVar _ | EGlobal _ | ERule _ => true
     | ENot a | EDefined a | ENeg a | EBitNot a | ERead _ a | EOffset _ a | ELength _ a => frag1 a
     | EAnd a b | EOr a b | EArith _ a b | ECmp _ a b | EPat _ _ a b | ECount _ _ a b | EWith _ a b => frag1 a && frag1 b
+    | EOf _ q _ ANone _ _ => frag1 q
     | _ => false
     end.
 
@@ -807,9 +830,370 @@ Section Correct.
       + destruct (Hv x0 slot t0 H). assumption.
   Qed.
 
-  Theorem emit_ok1 : forall e, frag1 e = true -> Ok e.
+  (* ---- n-ary `and` / `or`: the operands of the left-nested chain *)
+  Fixpoint esize (e : expr) : nat :=
+    match e with
+    | EBool _ | EInt _ | EStr _ | EFilesize | EVar _ | EGlobal _ | ERule _ => 1
+    | ENot a | EDefined a | ENeg a | EBitNot a | ERead _ a | EOffset _ a | ELength _ a => S (esize a)
+    | EAnd a b | EOr a b | EArith _ a b | ECmp _ a b | EStrOp _ a b | EPat _ _ a b | ECount _ _ a b | EWith _ a b =>
+        S (esize a + esize b)
+    | EOf _ q _ _ a b => S (esize q + esize a + esize b)
+    | EOfB _ q items => S (esize q + esizes items)
+    | EForOf _ q _ body => S (esize q + esize body)
+    | EForRange _ q _ lo hi body => S (esize q + esize lo + esize hi + esize body)
+    | EForTuple _ q _ items body => S (esize q + esizes items + esize body)
+    end
+  with esizes (es : exprs) : nat :=
+    match es with ENil => 0 | ECons e t => S (esize e + esizes t) end.
+
+  (* what a chain has established so far, next to its code: for `and`,
+     VUndef = left the block with false; for `or`, VUndef = left with true *)
+  Definition andv (u w : value) : value := match u with VBool true => w | _ => VUndef end.
+  Definition orv (u w : value) : value := match u with VBool false => w | _ => VUndef end.
+  Definition joinv (f : value -> value -> value) (a b : option value) : option value :=
+    match a, b with
+    | None, o => o
+    | Some u, None => Some u
+    | Some u, Some w => Some (f u w)
+    end.
+  Definition opv_and (en : env) (y : expr) : option value :=
+    match bconst y with Some true => None | _ => Some (eval en y) end.
+  Fixpoint and_val (en : env) (x : expr) : option value :=
+    match x with
+    | EAnd x1 x2 => joinv andv (and_val en x1) (opv_and en x2)
+    | _ => opv_and en x
+    end.
+  Definition opv_or (en : env) (y : expr) : option value :=
+    match bconst y with Some false => None | _ => Some (or_false (eval en y)) end.
+  Fixpoint or_val (en : env) (x : expr) : option value :=
+    match x with
+    | EOr x1 x2 => joinv orv (or_val en x1) (opv_or en x2)
+    | _ => opv_or en x
+    end.
+
+  Definition chain_ok (T : value -> bool) (sp : nat) (h : handler) (F : state -> state) (st : state)
+                      (oc : option (list instr)) (ov : option value) (target dflt : bool) : Prop :=
+    match oc, ov with
+    | Some c, Some v => types_as TBool v /\ computes sp h F [] c v st /\ T v = target
+    | None, None => target = dflt
+    | _, _ => False
+    end.
+  Definition AndChain (x : expr) : Prop :=
+    forall cg sp vars st, tyof cg sp x = Some TBool -> R cg sp (env_of vars) st -> s_stack st = [] ->
+      chain_ok truthy sp h0 F0 st (and_chain cg sp h0 x) (and_val (env_of vars) x)
+               (truthy (eval (env_of vars) x)) true.
+  Definition OrChain (x : expr) : Prop :=
+    forall cg sp vars st, tyof cg sp x = Some TBool -> R cg sp (env_of vars) st -> s_stack st = [] ->
+      chain_ok rawt sp h1 F1 st (or_chain cg sp x) (or_val (env_of vars) x)
+               (truthy (eval (env_of vars) x)) false.
+
+  Lemma emit_bool_bool : forall cg sp h x, tyof cg sp x = Some TBool -> emit_bool cg sp h x = emit cg sp h x.
+  Proof. intros cg sp h x H. unfold emit_bool. rewrite H. apply app_nil_r. Qed.
+
+  (* one operand *)
+  Lemma and_opnd_ok : forall x cg sp vars st, Ok x ->
+    tyof cg sp x = Some TBool -> R cg sp (env_of vars) st -> s_stack st = [] ->
+    chain_ok truthy sp h0 F0 st (and_opnd cg sp h0 x) (opv_and (env_of vars) x) (truthy (eval (env_of vars) x)) true.
   Proof.
-    induction e; intros Fr; try discriminate Fr; unfold Ok; intros cg sp h F vars st t Ht HR HF.
+    intros x cg sp vars st OkX Ht HR Hs. unfold and_opnd, opv_and.
+    assert (K : chain_ok truthy sp h0 F0 st (Some (emit_bool cg sp h0 x)) (Some (eval (env_of vars) x))
+                         (truthy (eval (env_of vars) x)) true).
+    { destruct (OkX cg sp h0 F0 vars st TBool Ht HR hspec_h0) as [Tv Hc]. rewrite Hs in Hc.
+      cbn [chain_ok]. rewrite (emit_bool_bool _ _ _ _ Ht). auto. }
+    destruct (bconst x) as [[|]|] eqn:B; try exact K.
+    cbn [chain_ok]. rewrite (bconst_sound _ _ B). reflexivity.
+  Qed.
+  Lemma or_opnd_ok : forall x cg sp vars st, Ok x ->
+    tyof cg sp x = Some TBool -> R cg sp (env_of vars) st -> s_stack st = [] ->
+    chain_ok rawt sp h1 F1 st (or_opnd cg sp x) (opv_or (env_of vars) x) (truthy (eval (env_of vars) x)) false.
+  Proof.
+    intros x cg sp vars st OkX Ht HR Hs. unfold or_opnd, opv_or.
+    assert (K : chain_ok rawt sp h1 F1 st
+                  (Some (catch_undef 1 (fun h' => emit_bool cg sp h' x) [IConst (V32 0)]))
+                  (Some (or_false (eval (env_of vars) x))) (truthy (eval (env_of vars) x)) false).
+    { assert (HR0 : R cg sp (env_of vars) (set_stack st [])) by (eapply R_keeps; [exact HR | apply keeps_stack]).
+      destruct (OkX cg sp h0 F0 vars (set_stack st []) TBool Ht HR0 hspec_h0) as [Tv Hc].
+      cbn [chain_ok]. unfold catch_undef. fold h0. rewrite (emit_bool_bool _ _ _ _ Ht).
+      pose proof (c_block_catch sp h1 F1 st _ _ Hc) as Blk. rewrite Hs in Blk.
+      rewrite (or_false_bool _ Tv). split; [reflexivity|]. split; [rewrite <- (or_false_bool _ Tv); exact Blk|].
+      destruct (truthy (eval (env_of vars) x)); reflexivity. }
+    destruct (bconst x) as [[|]|] eqn:B; try exact K.
+    cbn [chain_ok]. rewrite (bconst_sound _ _ B). reflexivity.
+  Qed.
+
+  Lemma and_chain_leaf : forall x, (forall a b, x <> EAnd a b) -> Ok x -> AndChain x.
+  Proof.
+    intros x Hn OkX cg sp vars st Ht HR Hs.
+    replace (and_chain cg sp h0 x) with (and_opnd cg sp h0 x)
+      by (destruct x; try reflexivity; exfalso; eapply Hn; reflexivity).
+    replace (and_val (env_of vars) x) with (opv_and (env_of vars) x)
+      by (destruct x; try reflexivity; exfalso; eapply Hn; reflexivity).
+    apply and_opnd_ok; assumption.
+  Qed.
+  Lemma or_chain_leaf : forall x, (forall a b, x <> EOr a b) -> Ok x -> OrChain x.
+  Proof.
+    intros x Hn OkX cg sp vars st Ht HR Hs.
+    replace (or_chain cg sp x) with (or_opnd cg sp x)
+      by (destruct x; try reflexivity; exfalso; eapply Hn; reflexivity).
+    replace (or_val (env_of vars) x) with (opv_or (env_of vars) x)
+      by (destruct x; try reflexivity; exfalso; eapply Hn; reflexivity).
+    apply or_opnd_ok; assumption.
+  Qed.
+
+  Lemma truthy_vbool : forall b, truthy (VBool b) = b.
+  Proof. intros [|]; reflexivity. Qed.
+  Lemma truthy_andv : forall u w, types_as TBool u -> truthy (andv u w) = truthy u && truthy w.
+  Proof. intros u w T. destruct (bool_or_undef _ T) as [-> | [[|] ->]]; reflexivity. Qed.
+  Lemma rawt_orv : forall u w, types_as TBool u -> rawt (orv u w) = rawt u || rawt w.
+  Proof. intros u w T. destruct (bool_or_undef _ T) as [-> | [[|] ->]]; reflexivity. Qed.
+
+  (* one more operand *)
+  Lemma and_chain_step : forall x1 x2, AndChain x1 -> Ok x2 -> AndChain (EAnd x1 x2).
+  Proof.
+    intros x1 x2 C1 Ok2 cg sp vars st Ht HR Hs. cbn [tyof] in Ht.
+    destruct (tyof cg sp x1) as [[|]|] eqn:Ta; try discriminate.
+    destruct (tyof cg sp x2) as [[|]|] eqn:Tb; try discriminate.
+    specialize (C1 cg sp vars st Ta HR Hs). cbn [and_chain and_val eval]. rewrite truthy_vbool.
+    pose proof (fun st' HR' S => and_opnd_ok x2 cg sp vars st' Ok2 Tb HR' S) as O2.
+    unfold and_opnd, opv_and in *.
+    destruct (and_chain cg sp h0 x1) as [c1|]; destruct (and_val (env_of vars) x1) as [v1|]; cbn [chain_ok] in C1; try contradiction.
+    - destruct C1 as [T1 [H1 E1]].
+      destruct (bconst x2) as [[|]|] eqn:B2; cbn [join_and joinv chain_ok].
+      + (* dropped *) split; [exact T1|]. split; [exact H1|]. rewrite E1, (bconst_sound _ _ B2). cbn [truthy]. apply eq_sym, andb_true_r.
+      + destruct (O2 st HR Hs) as [T2 [_ E2]].
+        split; [destruct (bool_or_undef _ T1) as [-> | [[|] ->]]; try exact I; try exact T2|].
+        split.
+        * apply (c_and_body sp st c1 _ v1 _ H1 Hs T1).
+          intros st' K S. assert (HR' : R cg sp (env_of vars) st') by (eapply R_keeps; eassumption).
+          destruct (O2 st' HR' S) as [_ [H2 _]]. exact H2.
+        * rewrite (truthy_andv _ _ T1), E1. reflexivity.
+      + destruct (O2 st HR Hs) as [T2 [_ E2]].
+        split; [destruct (bool_or_undef _ T1) as [-> | [[|] ->]]; try exact I; try exact T2|].
+        split.
+        * apply (c_and_body sp st c1 _ v1 _ H1 Hs T1).
+          intros st' K S. assert (HR' : R cg sp (env_of vars) st') by (eapply R_keeps; eassumption).
+          destruct (O2 st' HR' S) as [_ [H2 _]]. exact H2.
+        * rewrite (truthy_andv _ _ T1), E1. reflexivity.
+    - (* nothing so far: all operands before were known to be true *)
+      rewrite C1. cbn [andb].
+      destruct (bconst x2) as [[|]|] eqn:B2; cbn [join_and joinv chain_ok]; exact (O2 st HR Hs).
+  Qed.
+  Lemma or_chain_step : forall x1 x2, OrChain x1 -> Ok x2 -> OrChain (EOr x1 x2).
+  Proof.
+    intros x1 x2 C1 Ok2 cg sp vars st Ht HR Hs. cbn [tyof] in Ht.
+    destruct (tyof cg sp x1) as [[|]|] eqn:Ta; try discriminate.
+    destruct (tyof cg sp x2) as [[|]|] eqn:Tb; try discriminate.
+    specialize (C1 cg sp vars st Ta HR Hs). cbn [or_chain or_val eval]. rewrite truthy_vbool.
+    pose proof (fun st' HR' S => or_opnd_ok x2 cg sp vars st' Ok2 Tb HR' S) as O2.
+    unfold or_opnd, opv_or in *.
+    destruct (or_chain cg sp x1) as [c1|]; destruct (or_val (env_of vars) x1) as [v1|]; cbn [chain_ok] in C1; try contradiction.
+    - destruct C1 as [T1 [H1 E1]].
+      destruct (bconst x2) as [[|]|] eqn:B2; cbn [join_or joinv chain_ok].
+      + destruct (O2 st HR Hs) as [T2 [_ E2]].
+        split; [destruct (bool_or_undef _ T1) as [-> | [[|] ->]]; try exact I; try exact T2|].
+        split.
+        * apply (c_or_body sp st c1 _ v1 _ H1 Hs T1).
+          intros st' K S. assert (HR' : R cg sp (env_of vars) st') by (eapply R_keeps; eassumption).
+          destruct (O2 st' HR' S) as [_ [H2 _]]. exact H2.
+        * rewrite (rawt_orv _ _ T1), E1, E2. reflexivity.
+      + (* dropped *) split; [exact T1|]. split; [exact H1|]. rewrite E1, (bconst_sound _ _ B2). cbn [truthy]. apply eq_sym, orb_false_r.
+      + destruct (O2 st HR Hs) as [T2 [_ E2]].
+        split; [destruct (bool_or_undef _ T1) as [-> | [[|] ->]]; try exact I; try exact T2|].
+        split.
+        * apply (c_or_body sp st c1 _ v1 _ H1 Hs T1).
+          intros st' K S. assert (HR' : R cg sp (env_of vars) st') by (eapply R_keeps; eassumption).
+          destruct (O2 st' HR' S) as [_ [H2 _]]. exact H2.
+        * rewrite (rawt_orv _ _ T1), E1, E2. reflexivity.
+    - rewrite C1. cbn [orb].
+      destruct (bconst x2) as [[|]|] eqn:B2; cbn [join_or joinv chain_ok]; exact (O2 st HR Hs).
+  Qed.
+
+  (* the whole chain, given the theorem for every smaller expression *)
+  Lemma and_chain_ok : forall x, (forall y, (esize y <= esize x)%nat -> frag1 y = true -> Ok y) ->
+    frag1 x = true -> AndChain x.
+  Proof.
+    induction x; intros IH Fr;
+      try (apply and_chain_leaf; [intros ? ? E; discriminate E | apply IH; [apply le_n | exact Fr]]).
+    cbn [frag1] in Fr. apply andb_true_iff in Fr. destruct Fr as [Fr1 Fr2].
+    apply and_chain_step.
+    - apply IHx1; [|exact Fr1]. intros y Hy. apply IH. cbn [esize]. lia.
+    - apply IH; [cbn [esize]; lia | exact Fr2].
+  Qed.
+  Lemma or_chain_ok : forall x, (forall y, (esize y <= esize x)%nat -> frag1 y = true -> Ok y) ->
+    frag1 x = true -> OrChain x.
+  Proof.
+    induction x; intros IH Fr;
+      try (apply or_chain_leaf; [intros ? ? E; discriminate E | apply IH; [apply le_n | exact Fr]]).
+    cbn [frag1] in Fr. apply andb_true_iff in Fr. destruct Fr as [Fr1 Fr2].
+    apply or_chain_step.
+    - apply IHx1; [|exact Fr1]. intros y Hy. apply IH. cbn [esize]. lia.
+    - apply IH; [cbn [esize]; lia | exact Fr2].
+  Qed.
+
+  (* ---- `of` over a pattern set without anchor: emit_of_pattern_set's fast paths *)
+  Definition pats_of (l : list nat) : list mlist := map pm l.
+
+  (* the call for one run of consecutive ids, under a finished search *)
+  Lemma c_range_const : forall sp h F st r req,
+    s_done st = true -> (fst r <= snd r)%nat ->
+    computes sp h F (s_stack st) (range_call r [IConst (V64 req)])
+             (VBool (pat_range_match req (pats_of (run_ids r)))) st.
+  Proof.
+    intros sp h F st [f l] req D Hle. cbn [fst snd] in *. unfold range_call. cbn [fst snd app].
+    change [IConst (V32 (Z.of_nat f)); IConst (V32 (Z.of_nat l)); IConst (V64 req); ICall HRangeMatch]
+      with ([IConst (V32 (Z.of_nat f)); IConst (V32 (Z.of_nat l)); IConst (V64 req)] ++ [ICall HRangeMatch]).
+    eapply (computes_after sp h F (s_stack st) _ _ _ st
+              (set_stack st (V64 req :: V32 (Z.of_nat l) :: V32 (Z.of_nat f) :: s_stack st))).
+    - apply keeps_stack.
+    - intros rest o Hr. cbn [app]. do 3 apply step_const. exact Hr.
+    - eapply (c_call_pure sp h F (s_stack st) _ HRangeMatch [V32 (Z.of_nat f); V32 (Z.of_nat l); V64 req]).
+      + reflexivity.
+      + reflexivity.
+      + exact I.
+      + cbn [host_spec set_stack s_done]. rewrite D, !Nat2Z.id. reflexivity.
+      + discriminate.
+      + unfold pats_of, run_ids. cbn [fst snd val_of]. rewrite Nat.add_1_r. reflexivity.
+  Qed.
+  Lemma c_check_one : forall sp h F st i,
+    s_done st = true ->
+    computes sp h F (s_stack st) [IConst (V32 (Z.of_nat i)); ICall HCheckMatch] (VBool (matched (pm i))) st.
+  Proof.
+    intros sp h F st i D.
+    change [IConst (V32 (Z.of_nat i)); ICall HCheckMatch] with ([IConst (V32 (Z.of_nat i))] ++ [ICall HCheckMatch]).
+    eapply (computes_after sp h F (s_stack st) _ _ _ st (set_stack st (V32 (Z.of_nat i) :: s_stack st))).
+    - apply keeps_stack.
+    - intros rest o Hr. cbn [app]. apply step_const. exact Hr.
+    - eapply (c_call_pure sp h F (s_stack st) _ HCheckMatch [V32 (Z.of_nat i)]).
+      + reflexivity.
+      + reflexivity.
+      + exact I.
+      + cbn [host_spec set_stack s_done]. rewrite D, Nat2Z.id. reflexivity.
+      + discriminate.
+      + reflexivity.
+  Qed.
+
+  (* what one run contributes to `any of` / `all of` *)
+  Definition run_val (all : bool) (r : nat * nat) : bool :=
+    if all then forallb matched (pats_of (run_ids r)) else existsb matched (pats_of (run_ids r)).
+  Definition run_code (all : bool) (r : nat * nat) : list instr :=
+    if Nat.eqb (fst r) (snd r) then [IConst (V32 (Z.of_nat (fst r))); ICall HCheckMatch]
+    else range_call r [IConst (V64 (if all then Z.of_nat (snd r) - Z.of_nat (fst r) + 1 else 1))].
+  Lemma run_code_ok : forall sp h F st all r,
+    s_done st = true -> (fst r <= snd r)%nat ->
+    computes sp h F (s_stack st) (run_code all r) (VBool (run_val all r)) st.
+  Proof.
+    intros sp h F st all [f l] D Hle. cbn [fst snd] in Hle. unfold run_code, run_val. cbn [fst snd].
+    destruct (Nat.eqb f l) eqn:E.
+    - apply Nat.eqb_eq in E. subst l. unfold pats_of, run_ids. cbn [fst snd]. rewrite Nat.sub_diag. cbn [seq map forallb existsb].
+      replace (if all then matched (pm f) && true else matched (pm f) || false) with (matched (pm f))
+        by (destruct all; [rewrite andb_true_r | rewrite orb_false_r]; reflexivity).
+      apply c_check_one. exact D.
+    - apply Nat.eqb_neq in E.
+      pose proof (c_range_const sp h F st (f, l) (if all then Z.of_nat l - Z.of_nat f + 1 else 1) D Hle) as C.
+      cbn [fst snd] in C. destruct all.
+      + replace (Z.of_nat l - Z.of_nat f + 1)%Z with (Z.of_nat (length (pats_of (run_ids (f, l))))) in C |- *.
+        * rewrite range_all in C; [exact C|].
+          unfold pats_of, run_ids. cbn [fst snd seq map]. discriminate.
+        * unfold pats_of, run_ids. cbn [fst snd]. rewrite map_length, seq_length. lia.
+      + rewrite range_any in C. exact C.
+  Qed.
+
+  (* the runs after one another, with the early exit between them *)
+  Fixpoint any_val (rs : list (nat * nat)) : value :=
+    match rs with
+    | [] => VBool false
+    | [r] => VBool (run_val false r)
+    | r :: t => orv (VBool (run_val false r)) (any_val t)
+    end.
+  Fixpoint all_val (rs : list (nat * nat)) : value :=
+    match rs with
+    | [] => VBool true
+    | [r] => VBool (run_val true r)
+    | r :: t => andv (VBool (run_val true r)) (all_val t)
+    end.
+  Lemma of_runs_unfold : forall all r t,
+    of_runs all (r :: t) = run_code all r ++ match t with [] => [] | _ => (if all then and_exit else or_exit) ++ of_runs all t end.
+  Proof. intros all r t. destruct all; reflexivity. Qed.
+
+  Lemma any_val_types : forall rs, types_as TBool (any_val rs).
+  Proof.
+    induction rs as [|r t IH]; [reflexivity|]. destruct t as [|r2 t2]; [reflexivity|].
+    change (any_val (r :: r2 :: t2)) with (orv (VBool (run_val false r)) (any_val (r2 :: t2))).
+    destruct (run_val false r); [exact I | exact IH].
+  Qed.
+  Lemma all_val_types : forall rs, types_as TBool (all_val rs).
+  Proof.
+    induction rs as [|r t IH]; [reflexivity|]. destruct t as [|r2 t2]; [reflexivity|].
+    change (all_val (r :: r2 :: t2)) with (andv (VBool (run_val true r)) (all_val (r2 :: t2))).
+    destruct (run_val true r); [exact IH | exact I].
+  Qed.
+  Lemma any_val_raw : forall rs, rs <> [] -> rawt (any_val rs) = existsb matched (pats_of (runs_ids rs)).
+  Proof.
+    induction rs as [|r t IH]; [intros H; contradiction|]. intros _.
+    unfold runs_ids, pats_of in *. cbn [flat_map]. rewrite map_app, existsb_app.
+    destruct t as [|r2 t2].
+    - cbn [any_val flat_map map existsb rawt]. rewrite orb_false_r, truthy_vbool. reflexivity.
+    - change (any_val (r :: r2 :: t2)) with (orv (VBool (run_val false r)) (any_val (r2 :: t2))).
+      rewrite (rawt_orv (VBool (run_val false r)) _ eq_refl), IH by discriminate. cbn [rawt]. rewrite truthy_vbool. reflexivity.
+  Qed.
+  Lemma all_val_raw : forall rs, rs <> [] -> truthy (all_val rs) = forallb matched (pats_of (runs_ids rs)).
+  Proof.
+    induction rs as [|r t IH]; [intros H; contradiction|]. intros _.
+    unfold runs_ids, pats_of in *. cbn [flat_map]. rewrite map_app, forallb_app.
+    destruct t as [|r2 t2].
+    - cbn [all_val flat_map map forallb]. rewrite andb_true_r, truthy_vbool. reflexivity.
+    - change (all_val (r :: r2 :: t2)) with (andv (VBool (run_val true r)) (all_val (r2 :: t2))).
+      rewrite (truthy_andv (VBool (run_val true r)) _ eq_refl), IH by discriminate. rewrite truthy_vbool. reflexivity.
+  Qed.
+
+  Lemma any_runs_ok : forall sp rs st, rs <> [] -> Forall (fun r => (fst r <= snd r)%nat) rs ->
+    s_done st = true -> s_stack st = [] ->
+    computes sp h1 F1 [] (of_runs false rs) (any_val rs) st.
+  Proof.
+    intros sp. induction rs as [|r t IH]; [intros st H; contradiction|]. intros st _ Hle D S.
+    inversion Hle as [|? ? Hr Ht]; subst. rewrite of_runs_unfold.
+    pose proof (run_code_ok sp h1 F1 st false r D Hr) as C. rewrite S in C.
+    destruct t as [|r2 t2]; [rewrite app_nil_r; exact C|].
+    change (any_val (r :: r2 :: t2)) with (orv (VBool (run_val false r)) (any_val (r2 :: t2))).
+    apply (c_or_body sp st _ _ (VBool (run_val false r)) (any_val (r2 :: t2)) C S eq_refl).
+    intros st' K S'. apply IH; [discriminate | exact Ht | destruct K as [_ [_ [Dn _]]]; exact (Dn D) | exact S'].
+  Qed.
+  Lemma all_runs_ok : forall sp rs st, rs <> [] -> Forall (fun r => (fst r <= snd r)%nat) rs ->
+    s_done st = true -> s_stack st = [] ->
+    computes sp h0 F0 [] (of_runs true rs) (all_val rs) st.
+  Proof.
+    intros sp. induction rs as [|r t IH]; [intros st H; contradiction|]. intros st _ Hle D S.
+    inversion Hle as [|? ? Hr Ht]; subst. rewrite of_runs_unfold.
+    pose proof (run_code_ok sp h0 F0 st true r D Hr) as C. rewrite S in C.
+    destruct t as [|r2 t2]; [rewrite app_nil_r; exact C|].
+    change (all_val (r :: r2 :: t2)) with (andv (VBool (run_val true r)) (all_val (r2 :: t2))).
+    apply (c_and_body sp st _ _ (VBool (run_val true r)) (all_val (r2 :: t2)) C S eq_refl).
+    intros st' K S'. apply IH; [discriminate | exact Ht | destruct K as [_ [_ [Dn _]]]; exact (Dn D) | exact S'].
+  Qed.
+
+  Lemma runs_nonempty : forall set, set <> [] -> runs set <> [].
+  Proof.
+    intros set H E. pose proof (runs_perm set) as P. rewrite E in P. cbn in P.
+    apply Permutation_sym, Permutation_nil in P. contradiction.
+  Qed.
+  Lemma of_items_none : forall en0 (set : list nat) v1 v2,
+    map (fun i => pat_item (e_pm en0 i) ANone v1 v2) set = map (fun m => VBool (matched m)) (map (e_pm en0) set).
+  Proof. intros. rewrite map_map. reflexivity. Qed.
+  Lemma existsb_truthy_matched : forall ms, existsb truthy (map (fun m => VBool (matched m)) ms) = existsb matched ms.
+  Proof. induction ms as [|m t IH]; [reflexivity|]. cbn [map existsb]. rewrite IH, truthy_vbool. reflexivity. Qed.
+  Lemma forallb_truthy_matched : forall ms, forallb truthy (map (fun m => VBool (matched m)) ms) = forallb matched ms.
+  Proof. induction ms as [|m t IH]; [reflexivity|]. cbn [map forallb]. rewrite IH, truthy_vbool. reflexivity. Qed.
+
+  Lemma emit_ok_size : forall bound e, (esize e < bound)%nat -> frag1 e = true -> Ok e.
+  Proof.
+    induction bound as [|bound IHn]; [intros e H; inversion H|].
+    intros e Hsz Fr.
+    destruct e; try discriminate Fr;
+      try (assert (IHe : frag1 e = true -> Ok e) by (intros X; apply IHn; [cbn [esize] in Hsz; lia | exact X]));
+      try (assert (IHe1 : frag1 e1 = true -> Ok e1) by (intros X; apply IHn; [cbn [esize] in Hsz; lia | exact X]));
+      try (assert (IHe2 : frag1 e2 = true -> Ok e2) by (intros X; apply IHn; [cbn [esize] in Hsz; lia | exact X]));
+      try (assert (IHe3 : frag1 e3 = true -> Ok e3) by (intros X; apply IHn; [cbn [esize] in Hsz; lia | exact X]));
+      unfold Ok; intros cg sp h F vars st t Ht HR HF.
     - (* EBool *) cbn in Ht. injection Ht as <-. split; [reflexivity|]. cbn [emit eval]. apply c_const; [discriminate|reflexivity].
     - (* EInt *) cbn in Ht. injection Ht as <-. split; [reflexivity|]. cbn [emit eval]. apply c_const; [discriminate|reflexivity].
     - (* EFilesize *) cbn in Ht. injection Ht as <-. split; [reflexivity|]. cbn [emit eval env_of e_len].
@@ -844,38 +1228,46 @@ Section Correct.
       eapply computes_bind; [exact Ha | intros ->; reflexivity |].
       intros N st' K S. destruct (bool_or_undef _ Tv) as [E | [b E]]; [contradiction|]. rewrite E in *.
       cbn [v_not]. eapply c_un; [exact S | reflexivity | discriminate | destruct b; reflexivity].
-    - (* EAnd *) cbn [frag1] in Fr. apply andb_true_iff in Fr. destruct Fr as [Fr1 Fr2]. cbn [tyof] in Ht.
+    - (* EAnd *) pose proof Fr as Fr0. cbn [frag1] in Fr. apply andb_true_iff in Fr. destruct Fr as [Fr1 Fr2].
+      pose proof Ht as Ht0. cbn [tyof] in Ht.
       destruct (tyof cg sp e1) as [[|]|] eqn:Ta; try discriminate.
       destruct (tyof cg sp e2) as [[|]|] eqn:Tb; try discriminate. injection Ht as <-.
-      cbn [eval]. split; [reflexivity|].
+      split; [reflexivity|].
       assert (HR0 : R cg sp (env_of vars) (set_stack st [])) by (eapply R_keeps; [exact HR | apply keeps_stack]).
-      destruct (IHe1 Fr1 cg sp h0 F0 vars (set_stack st []) TBool Ta HR0 hspec_h0) as [Tva Ha].
-      cbn [emit]. rewrite Ta, Tb. unfold catch_undef. rewrite !app_nil_r. fold h0.
-      pose proof (c_and_body sp (set_stack st []) (emit cg sp h0 e1) (emit cg sp h0 e2)
-                    (eval (env_of vars) e1) (eval (env_of vars) e2) Ha eq_refl Tva) as Body.
-      assert (Hb : forall st', keeps sp (set_stack st []) st' -> s_stack st' = [] ->
-                    computes sp h0 F0 [] (emit cg sp h0 e2) (eval (env_of vars) e2) st').
-      { intros st' K S. assert (HR' : R cg sp (env_of vars) st') by (eapply R_keeps; eassumption).
-        destruct (IHe2 Fr2 cg sp h0 F0 vars st' TBool Tb HR' hspec_h0) as [_ Hb]. rewrite S in Hb. exact Hb. }
-      specialize (Body Hb).
-      pose proof (c_block_catch sp h F st _ _ Body) as Blk.
-      destruct (IHe2 Fr2 cg sp h0 F0 vars (set_stack st []) TBool Tb HR0 hspec_h0) as [Tvb _].
-      replace (VBool (truthy (eval (env_of vars) e1) && truthy (eval (env_of vars) e2)))
-        with (or_false (match eval (env_of vars) e1 with VBool true => eval (env_of vars) e2 | _ => VUndef end)).
-      + exact Blk.
-      + destruct (bool_or_undef _ Tva) as [-> | [[|] ->]]; try reflexivity.
-        rewrite (or_false_bool _ Tvb). reflexivity.
-    - (* EOr *) cbn [frag1] in Fr. apply andb_true_iff in Fr. destruct Fr as [Fr1 Fr2]. cbn [tyof] in Ht.
+      assert (CH : AndChain (EAnd e1 e2)).
+      { apply and_chain_step; [|exact (IHe2 Fr2)].
+        apply and_chain_ok; [|exact Fr1]. intros y Hy Fy. apply IHn; [cbn [esize] in Hsz; lia | exact Fy]. }
+      specialize (CH cg sp vars (set_stack st []) Ht0 HR0 eq_refl).
+      rewrite emit_and_eq. unfold catch_undef. fold h0.
+      destruct (and_chain cg sp h0 (EAnd e1 e2)) as [c|]; destruct (and_val (env_of vars) (EAnd e1 e2)) as [v|];
+        cbn [chain_ok] in CH; try contradiction; cbn [code_and].
+      + destruct CH as [Tv [Hc Ev]].
+        pose proof (c_block_catch sp h F st _ _ Hc) as Blk. rewrite (or_false_bool _ Tv), Ev in Blk.
+        cbn [eval] in Blk |- *. rewrite truthy_vbool in Blk. exact Blk.
+      + cbn [eval] in CH |- *. rewrite truthy_vbool in CH. rewrite CH.
+        apply (c_block_catch sp h F st [IConst (V32 1)] (VBool true)).
+        apply (c_const sp h0 F0 (set_stack st []) (VBool true) (V32 1)); [discriminate | reflexivity].
+    - (* EOr *) pose proof Fr as Fr0. cbn [frag1] in Fr. apply andb_true_iff in Fr. destruct Fr as [Fr1 Fr2].
+      pose proof Ht as Ht0. cbn [tyof] in Ht.
       destruct (tyof cg sp e1) as [[|]|] eqn:Ta; try discriminate.
       destruct (tyof cg sp e2) as [[|]|] eqn:Tb; try discriminate. injection Ht as <-.
-      cbn [eval]. split; [reflexivity|].
+      split; [reflexivity|].
       assert (HR0 : R cg sp (env_of vars) (set_stack st [])) by (eapply R_keeps; [exact HR | apply keeps_stack]).
-      destruct (IHe1 Fr1 cg sp h0 F0 vars (set_stack st []) TBool Ta HR0 hspec_h0) as [Tva Ha].
-      destruct (IHe2 Fr2 cg sp h0 F0 vars (set_stack st []) TBool Tb HR0 hspec_h0) as [Tvb _].
-      cbn [emit]. rewrite Ta, Tb. unfold catch_undef. rewrite !app_nil_r. fold h0.
-      apply (c_or sp h F st _ _ _ _ Tva Tvb Ha).
-      intros st' K. assert (HR' : R cg sp (env_of vars) (set_stack st' [])) by (eapply R_keeps; [exact HR | eapply keeps_trans; [exact K | apply keeps_stack]]).
-      destruct (IHe2 Fr2 cg sp h0 F0 vars (set_stack st' []) TBool Tb HR' hspec_h0) as [_ Hb]. exact Hb.
+      assert (CH : OrChain (EOr e1 e2)).
+      { apply or_chain_step; [|exact (IHe2 Fr2)].
+        apply or_chain_ok; [|exact Fr1]. intros y Hy Fy. apply IHn; [cbn [esize] in Hsz; lia | exact Fy]. }
+      specialize (CH cg sp vars (set_stack st []) Ht0 HR0 eq_refl).
+      rewrite emit_or_eq.
+      destruct (or_chain cg sp (EOr e1 e2)) as [c|]; destruct (or_val (env_of vars) (EOr e1 e2)) as [v|];
+        cbn [chain_ok] in CH; try contradiction; cbn [code_or].
+      + destruct CH as [Tv [Hc Ev]].
+        pose proof (c_block_catch1 sp h F st _ _ Hc) as Blk.
+        replace (or_true v) with (VBool (rawt v)) in Blk
+          by (destruct (bool_or_undef _ Tv) as [-> | [[|] ->]]; reflexivity).
+        rewrite Ev in Blk. cbn [eval] in Blk |- *. rewrite truthy_vbool in Blk. exact Blk.
+      + cbn [eval] in CH |- *. rewrite truthy_vbool in CH. rewrite CH.
+        apply (c_block_catch sp h F st [IConst (V32 0)] (VBool false)).
+        apply (c_const sp h0 F0 (set_stack st []) (VBool false) (V32 0)); [discriminate | reflexivity].
     - (* EDefined *) cbn [frag1] in Fr. cbn [tyof] in Ht.
       destruct (tyof cg sp e) as [ta|] eqn:Ta; try discriminate. injection Ht as <-.
       cbn [eval]. split; [reflexivity|].
@@ -1080,6 +1472,69 @@ Section Correct.
       intros x st'' K' S'.
       apply (c_call_undef_int sp h F (s_stack st) st'' HLength [V32 (Z.of_nat i); V64 x]);
         [exact HF | exact S' | reflexivity | exact I | apply v_length_shape | cbn [host_spec]; destruct K' as [_ [_ [Dn _]]]; rewrite (Dn D), Nat2Z.id; reflexivity].
+    - (* EOf: `any / all / N of <set>` without anchor *)
+      cbn [frag1] in Fr. destruct ak; try discriminate Fr. cbn [tyof] in Ht.
+      destruct (search_ok sp st) as [st' [K [S [D C]]]].
+      assert (EI : map (fun i => pat_item (e_pm (env_of vars) i) ANone (eval (env_of vars) e2) (eval (env_of vars) e3)) set
+                   = map (fun m => VBool (matched m)) (pats_of set))
+        by (unfold pats_of; rewrite map_map; reflexivity).
+      destruct qk; destruct set as [|i0 set']; cbn in Ht; try discriminate Ht;
+        assert (NE : i0 :: set' <> []) by discriminate.
+      + (* any *) injection Ht as <-. rewrite (of_any (env_of vars) (i0 :: set') ANone e2 e3 e1). unfold of_items.
+        rewrite EI, existsb_truthy_matched. split; [reflexivity|].
+        cbn [emit]. eapply computes_after; [exact K | exact C |].
+        assert (Dn : s_done (set_stack st' []) = true) by exact D.
+        pose proof (any_runs_ok sp (runs (i0 :: set')) (set_stack st' []) (runs_nonempty (i0 :: set') NE) (runs_le _) Dn eq_refl) as B.
+        pose proof (c_block_catch1 sp h F st' _ _ B) as Blk. rewrite S in Blk.
+        replace (or_true (any_val (runs (i0 :: set')))) with (VBool (rawt (any_val (runs (i0 :: set'))))) in Blk
+          by (destruct (bool_or_undef _ (any_val_types (runs (i0 :: set')))) as [-> | [[|] ->]]; reflexivity).
+        rewrite (any_val_raw _ (runs_nonempty (i0 :: set') NE)) in Blk.
+        unfold pats_of in Blk |- *.
+        rewrite <- (perm_existsb _ matched _ _ (Permutation_map pm (runs_perm (i0 :: set')))) in Blk.
+        exact Blk.
+      + (* all *) injection Ht as <-. rewrite (of_all (env_of vars) (i0 :: set') ANone e2 e3 e1). unfold of_items.
+        rewrite EI, forallb_truthy_matched. split; [reflexivity|].
+        cbn [emit]. eapply computes_after; [exact K | exact C |].
+        assert (Dn : s_done (set_stack st' []) = true) by exact D.
+        pose proof (all_runs_ok sp (runs (i0 :: set')) (set_stack st' []) (runs_nonempty (i0 :: set') NE) (runs_le _) Dn eq_refl) as B.
+        pose proof (c_block_catch sp h F st' _ _ B) as Blk. rewrite S in Blk.
+        rewrite (or_false_bool _ (all_val_types _)), (all_val_raw _ (runs_nonempty (i0 :: set') NE)) in Blk.
+        unfold pats_of in Blk |- *.
+        rewrite <- (perm_forallb _ matched _ _ (Permutation_map pm (runs_perm (i0 :: set')))) in Blk.
+        exact Blk.
+      + (* N of: one call of pat_range_match over the single run *)
+        destruct (tyof cg sp e1) as [[|]|] eqn:Tq; try discriminate.
+        destruct (consecutive_ids (i0 :: set')) eqn:Cs; try discriminate. injection Ht as <-.
+        unfold consecutive_ids in Cs. destruct (runs (i0 :: set')) as [|r [|r' rs']] eqn:Rs; try discriminate.
+        destruct (single_run _ _ Rs) as [P Hle].
+        assert (HR1 : R cg sp (env_of vars) st') by (eapply R_keeps; eassumption).
+        destruct (IHe1 Fr cg sp h F vars st' TInt Tq HR1 HF) as [Tvq _].
+        cbn [eval]. rewrite EI.
+        assert (EV : v_of QExpr (eval (env_of vars) e1) (map (fun m => VBool (matched m)) (pats_of (i0 :: set')))
+                     = on_int1 (fun z => VBool (pat_range_match z (pats_of (run_ids r)))) (eval (env_of vars) e1)).
+        { destruct (int_or_undef _ Tvq) as [-> | [z ->]]; [reflexivity|]. cbn [on_int1].
+          rewrite of_fast_path_equiv_loop. unfold pats_of. rewrite (pat_range_match_perm z pm _ _ P). reflexivity. }
+        rewrite EV. split; [destruct (int_or_undef _ Tvq) as [-> | [z ->]]; [exact I | reflexivity]|].
+        cbn [emit]. rewrite Rs. eapply computes_after; [exact K | exact C |].
+        unfold range_call. destruct r as [f l]. cbn [fst snd app] in *.
+        change (IConst (V32 (Z.of_nat f)) :: IConst (V32 (Z.of_nat l)) :: emit cg sp h e1 ++ [ICall HRangeMatch])
+          with ([IConst (V32 (Z.of_nat f)); IConst (V32 (Z.of_nat l))] ++ emit cg sp h e1 ++ [ICall HRangeMatch]).
+        eapply (computes_after sp h F (s_stack st) _ _ _ st'
+                  (set_stack st' (V32 (Z.of_nat l) :: V32 (Z.of_nat f) :: s_stack st))).
+        * apply keeps_stack.
+        * intros rest o Hr. rewrite <- S in Hr. cbn [app]. do 2 apply step_const. exact Hr.
+        * assert (HR2 : R cg sp (env_of vars) (set_stack st' (V32 (Z.of_nat l) :: V32 (Z.of_nat f) :: s_stack st)))
+            by (eapply R_keeps; [exact HR1 | apply keeps_stack]).
+          destruct (IHe1 Fr cg sp h F vars _ TInt Tq HR2 HF) as [_ Hq]. cbn [set_stack s_stack] in Hq.
+          apply (c_int1 sp h F (s_stack st) (V32 (Z.of_nat l) :: V32 (Z.of_nat f) :: s_stack st)); [exact Tvq | exact Hq |].
+          intros x st'' K' S'.
+          eapply (c_call_pure sp h F (s_stack st) st'' HRangeMatch [V32 (Z.of_nat f); V32 (Z.of_nat l); V64 x]).
+          -- exact S'.
+          -- reflexivity.
+          -- exact I.
+          -- cbn [host_spec]. destruct K' as [_ [_ [Dn _]]]. rewrite (Dn D), !Nat2Z.id. reflexivity.
+          -- discriminate.
+          -- unfold pats_of, run_ids. cbn [fst snd val_of]. rewrite Nat.add_1_r. reflexivity.
     - (* EWith *) cbn [frag1] in Fr. apply andb_true_iff in Fr. destruct Fr as [Fr1 Fr2]. cbn [tyof] in Ht.
       destruct (tyof cg (S sp) e1) as [td|] eqn:Td; try discriminate.
       destruct (Nat.ltb sp (Z.to_nat MAX_VARS)) eqn:Lt; try discriminate. apply Nat.ltb_lt in Lt.
@@ -1101,6 +1556,9 @@ Section Correct.
       eapply computes_after; [exact K | exact C |].
       rewrite Sk in Hb. eapply computes_weaken; [|exact Hb]. lia.
   Qed.
+
+  Theorem emit_ok1 : forall e, frag1 e = true -> Ok e.
+  Proof. intros e. apply (emit_ok_size (S (esize e))). apply Nat.lt_succ_diag_r. Qed.
 
   (* ----------------------------------------------------- whole conditions *)
   (* any state a rule's code can start in: the data's size in the filesize
@@ -1191,4 +1649,15 @@ Example frag1_example :
              (EOr (ECmp Eq (EVar 0%nat) (EInt 1)) (EPat (PId 0) AAt (EArith Add EFilesize (EInt (-2))) (EInt 0))) in
   frag1 e = true /\ tyof [] 0 e = Some TBool /\
   run_condition [97; 98; 99; 97; 98] (fun _ => [(3, 2)]) (fun _ => false) (fun _ => VUndef) 1000 e = Some true.
+Proof. vm_compute. repeat split. Qed.
+
+(* `N of <set>` with N computed at run time (here 0: true when no pattern of the
+   set matches) and `all of` over ids that do not form one run are in the part
+   the theorem covers *)
+Example frag1_of_example :
+  let e := EAnd (EOf QExpr (EArith Sub EFilesize (EInt 5)) [1%nat; 0%nat] ANone (EInt 0) (EInt 0))
+                (ENot (EOf QAll (EInt 0) [0%nat; 2%nat] ANone (EInt 0) (EInt 0))) in
+  frag1 e = true /\ tyof [] 0 e = Some TBool /\
+  run_condition [97; 98; 99; 97; 98] (fun i => match i with 2%nat => [(3, 2)] | _ => [] end)
+                (fun _ => false) (fun _ => VUndef) 1000 e = Some true.
 Proof. vm_compute. repeat split. Qed.
